@@ -28,7 +28,13 @@ EXTENDS Integers, Sequences, FiniteSets, TLC, Json
 CONSTANTS
     NK,        \* key ids 1..NK
     NKnown,    \* 1..NKnown are held by the client, NKnown+1..NK are produced by Create
-    Passes,    \* passphrases (strings naming: empty, unicode, long)
+    Passes,    \* passphrase NAMES; the replayer binds them so that white space matters:
+               \*   "e" the empty passphrase          "w" white space only (= "e" padded)
+               \*   "u" a base passphrase (unicode / long / plain, per behaviour)
+               \*   "v" "u" with ASCII or unicode white space added before and/or after
+               \* all four are DIFFERENT passphrases: "w" never opens a key stored under "e",
+               \* "v" never one stored under "u", and a key stored under "w" / "v" opens
+               \* under exactly that passphrase
     MaxArm,    \* bound on the number of exported armors kept
     Depth      \* simulation: length of a behaviour
 
